@@ -298,6 +298,86 @@ func (d *driver) matchLevel(l int) bool {
 	return d.level("match", l, fmt.Sprintf("all patterns of %d symbols x all names <= 3 symbols", l), tasks)
 }
 
+// foldPairs: Rel (and Join/2, Split, ... through pair) on arguments whose
+// elements, share or host differ only by letter case, including the pairs whose
+// two cases have different UTF-8 lengths (Kelvin sign / k, long s / s,
+// U+023A / U+2C65): path/filepath compares with simple case folding on Windows
+// and byte-wise on Linux.
+func (d *driver) foldPairs() bool {
+	words := []string{"k", "K", "\u212a", "s", "S", "\u017f", "\u023a", "\u2c65", "a"}
+
+	var rels []string
+
+	for _, w1 := range words {
+		rels = append(rels, w1)
+
+		for _, w2 := range words {
+			rels = append(rels, w1+`\`+w2, w1+"/"+w2)
+		}
+	}
+
+	var dict []string
+
+	for _, pre := range []string{"", `\`, "/", `C:\`, `c:`, `\\h\s\`, `\\k\s\`, "\\\\\u212a\\s\\", "\\\\h\\\u017f\\"} {
+		for _, r := range rels {
+			dict = append(dict, pre+r)
+		}
+	}
+
+	var tasks []task
+
+	const chunk = 8
+
+	for _, o := range d.os {
+		for lo := 0; lo < len(dict); lo += chunk {
+			o, part := o, dict[lo:min(lo+chunk, len(dict))]
+
+			tasks = append(tasks, func(w *worker) {
+				for _, a := range part {
+					for _, b := range dict {
+						w.pair(o, a, b)
+					}
+				}
+			})
+		}
+	}
+
+	return d.level("fold-pairs", 2, fmt.Sprintf("all pairs over %d paths of <= 2 elements drawn from letters whose cases fold together (ASCII, Kelvin sign, long s, U+023A/U+2C65) under 9 prefixes: Join/2, Rel", len(dict)), tasks)
+}
+
+// matchUTF8: Match on patterns made of class syntax and of runes at the edges
+// of UTF-8 decoding: U+FFFD validly encoded (what a decoder returns for an
+// error, but a legitimate member of a class), an invalid byte, a 3-byte and a
+// 4-byte rune.
+func (d *driver) matchUTF8() bool {
+	pieces := alphabet{"[", "]", "^", "-", "\ufffd", "\xff", "a", "*", "\\", "\u212a", "\U0001F600"}
+	names := []string{"", "a", "\ufffd", "\xff", "\u212a", "\U0001F600", "\ufffda", "a\xff", "-", "^", "]", "\\"}
+
+	var tasks []task
+
+	const chunk = 256
+
+	for l := 1; l <= 5; l++ {
+		n := pieces.count(l)
+
+		for _, o := range d.os {
+			for lo := 0; lo < n; lo += chunk {
+				o, l, lo, hi := o, l, lo, min(lo+chunk, n)
+
+				tasks = append(tasks, func(w *worker) {
+					pieces.each(l, lo, hi, func(p string) {
+						for _, name := range names {
+							w.matchCheck(o, p, name)
+						}
+					})
+				})
+			}
+		}
+	}
+
+	return d.level("match-utf8", 5, fmt.Sprintf("all patterns of <= 5 pieces over %d pieces (class syntax, U+FFFD, an invalid byte, 3- and 4-byte runes) x %d names", len(pieces), len(names)), tasks)
+}
+
 // --- Abs (Linux type only) ---
 
 type absCtx struct {
@@ -637,6 +717,8 @@ func (d *driver) run() {
 	d.phase("join3", d.join3)
 	d.phase("pairs<=3", upto(0, 3, d.pairLevel))
 	d.phase("dict-pairs", d.dictPairs)
+	d.phase("fold-pairs", d.foldPairs)
+	d.phase("match-utf8", d.matchUTF8)
 	d.phase("abs<=5", func() bool { return d.absPhase(5, true, "") })
 	d.phase("match<=4", upto(0, 4, d.matchLevel))
 
